@@ -19,7 +19,7 @@ def _emit_body(m):
 
 
 # ------------------------------------------------------------------ C08-R1 / C10-R2 / C15-R1
-def rule_emit(m, rep, rid='R1', counters=False):
+def rule_emit(m, rep, rid='R1', counters=False, strict=False, early_pure=False):
     emit = _emit_body(m)
     if emit is None:
         rep.anchor_lost(rid, 'QueuingMetricSink::emit')
@@ -31,8 +31,27 @@ def rule_emit(m, rep, rid='R1', counters=False):
     rep.sites(len(sends))
     cnt = count_events(body, lambda b: b in [s[0] for s in sends])
     ok = len(sends) == 1 and cnt == {1}
+    early = set()
+    if not ok and not strict and len(sends) == 1 and cnt == {0, 1}:
+        # an emit that never reaches the queue is fine for everything but C10 as long as it says so (returns Err):
+        # look at the returns of the paths that avoid the enqueue
+        import copy
+        b2 = copy.copy(body)
+        b2.blocks = list(body.blocks)
+        b2.blocks[sends[0][0]] = dict(body.blocks[sends[0][0]], term={'k': 'unreachable'})
+        live = reach(b2, [0])
+        b2.blocks = [blk if i in live else dict(blk, stmts=[], term={'k': 'unreachable'}) for i, blk in enumerate(b2.blocks)]
+        T2 = Terms(b2)
+        early = set(ret_terms(T2, [0]))
+        ok = bool(early) and all(r[0] == 'adt' and r[2] == 'Err' for r in early)
+        if ok and early_pure:
+            # ... and, where the sink must *keep* accepting (C11), the refusal may depend on the metric only, not on
+            # anything the sink remembers
+            for bi in live:
+                if b2.blocks[bi]['term']['k'] == 'switch' and any(x == ('param', 1) for x in walk(norm(T2.switch_facts(bi)[0]))):
+                    ok = False
     rep.ob(rid, 'emit/enqueues-exactly-once', ok, body.where(sends[0][0]) if sends else emit.where(),
-           'every path through emit performs exactly one send on the worker channel' if ok else
+           ('every path through emit performs exactly one send on the worker channel' if not early else 'every path through emit performs one send on the worker channel or refuses with Err before it') if ok else
            'emit performs %s sends on the worker channel per call (paths without an enqueue or with two)' % sorted(cnt))
     if not ok:
         return
@@ -47,6 +66,7 @@ def rule_emit(m, rep, rid='R1', counters=False):
            'payload is Some(owned copy of the whole metric)' if okp else 'payload is %s' % fmt(payload))
     rc = result_cases(T, sb)
     r_ok, r_err = rc['ok'], rc['err']
+    rc['?'] = set(x for x in rc['?'] if x not in early)
     if rc['?'] or not r_ok or not r_err:
         rep.bad(rid, 'emit/result-depends-on-enqueue', body.where(sb),
                 'the result of emit does not depend on the try_send outcome on every path (unconditional results: %s)' % [fmt(x)[:80] for x in rc['?']])
@@ -129,6 +149,8 @@ def rule_one_consumer(m, rep, rid='R2', parts=('receiver', 'callers')):
                             if e[0] == 'field' and e[2] == m.f_receiver and e[3] == m.receiver_ty:
                                 if 'Debug' in (b.impl_trait or '') or blk['cleanup']:
                                     continue
+                                if _only_feeds_benign_query(b, s):
+                                    continue        # `self.receiver.len()`: the borrow goes into a query and nowhere else
                                 offenders.append((b, bi, 'access to .%s' % m.f_receiver))
     if 'receiver' in parts:
         rep.floor(rid, 'bodies in queuing.rs', n, 30)
@@ -163,6 +185,34 @@ def rule_one_consumer(m, rep, rid='R2', parts=('receiver', 'callers')):
     spc = [bi for bi, t in m.spawn.calls() if callee_is(t, 'std::thread::functions::spawn')]
     oks = len(spc) == 1
     rep.ob(rid, 'spawn-one-thread', oks, m.spawn.where(), 'one thread::spawn per call')
+
+
+def _only_feeds_benign_query(b, s):
+    """statement `tmp = &<..>.receiver` whose temporary is used exactly as the receiver argument of is_empty/len/is_full"""
+    rv = s['rv']
+    if rv.get('k') != 'ref' or rv.get('bk') == 'mut' or s['place']['p']:
+        return False
+    tmp = s['place']['l']
+    uses = 0
+    for blk in b.blocks:
+        for s2 in blk['stmts']:
+            if s2 is s or s2['k'] != 'assign':
+                continue
+            if any(pl['l'] == tmp for pl in _places_of(s2)):
+                return False
+        tm = blk['term']
+        if tm['k'] == 'call':
+            hit = [a for a in tm['args'] if isinstance(a, dict) and a.get('k') in ('copy', 'move') and a['place']['l'] == tmp]
+            if hit:
+                k = strip_generics(tm.get('callee_full', ''))
+                if k not in RECV_BENIGN or k.endswith('::iter') or k.endswith('into_iter') or a_is_not_plain(hit):
+                    return False
+                uses += 1
+    return uses == 1
+
+
+def a_is_not_plain(ops):
+    return any(o['place']['p'] for o in ops)
 
 
 def _places_of(s):
